@@ -443,7 +443,7 @@ func TestC09(t *testing.T) {
 		{Doc: "services:\n  svc:\n    image: busybox\n    environment:\n      PRICE: \"5$$\"\n    labels:\n      l: \"a$${b}c\"\n", JSON: true},
 	}
 	RunEnum(c, t, "dollar", len(dollar), func(i int) c09Case { return dollar[i] }, c09Check, true)
-	RunRapid(c, t, Sub[c09Case]{Kind: "round-trip", Quick: 2000, Thorough: 60_000, Gen: genC09, Check: c09Check})
+	RunRapid(c, t, Sub[c09Case]{Kind: "round-trip", Quick: 5000, Thorough: 60_000, Gen: genC09, Check: c09Check})
 	// field universe, for the coverage report
 	all := map[string]bool{}
 	seen := map[reflect.Type]bool{}
